@@ -137,6 +137,12 @@ def oracle(case, impl):
 
 
 
+def _oracle_sources_alive(case, impl):
+    from props.c12 import oracle_hrefresh
+    r = oracle_hrefresh(case, impl)
+    return r if (r and "blocks" in r) else None
+
+
 def _oracle_mdns_alive(case, impl):
     from props.c18 import oracle_flood
     if case.startswith("mdnsflood "):
@@ -165,6 +171,8 @@ SPEC = dict(
                # "whatever names LAN devices advertise through mDNS ... a client's queries keep resolving": the real receive
                # loop fed with packets (area shared with C18); a reader that dies or wedges inside the table's lock blocks the
                # ClientInfo lookup every query makes
+               # the file-backed sources (hosts file, lease file) across refreshes whose read fails: lookups must come back
+               dict(name="hrefresh", n_quick=90, n_thorough=1500, shards_thorough=2, oracle=_oracle_sources_alive),
                dict(name="mdns", n_quick=300, n_thorough=4000, shards_thorough=4, oracle=_oracle_mdns_alive, timeout=900)],
         trusted=COMMON_TRUST + ["overlay test harness compiled into package main (overlay/main_test.go.txt)",
                                 "translator /verif/extract (header literals and shortID constants)"],
